@@ -69,7 +69,15 @@ func (spkd SetPubKeyDecorator) AnteHandle(ctx sdk.Context, tx sdk.Tx, simulate b
 		if err != nil {
 			return ctx, err
 		}
+		// every signer must come with its own public key: the keys are taken from the tx's
+		// SignerInfos, and nothing else ties their number to the number of signers
+		if len(pubKeys) != len(signers) {
+			return ctx, sdkerrors.ErrUnauthorized.Wrapf("invalid number of signer infos; expected: %d, got %d", len(signers), len(pubKeys))
+		}
 		for i, pk := range pubKeys {
+			if pk == nil {
+				return ctx, sdkerrors.ErrInvalidPubKey.Wrapf("missing public key for signer index: %d", i)
+			}
 			// addrFromPubk, err := sdk.AccAddressFromBech32(sdk.AccAddress(pk).String())
 			if !bytes.Equal(signers[i], pk.Address()) {
 				return ctx, sdkerrors.ErrInvalidPubKey.Wrapf("pubKey does not match signer address %s with signer index: %d", signers[i], i)
@@ -274,6 +282,12 @@ func (svd SigVerificationDecorator) AnteHandle(ctx sdk.Context, tx sdk.Tx, simul
 		pubKeys, err := sigTx.GetPubKeys()
 		if err != nil {
 			return ctx, err
+		}
+		// one verified signature per signer: the signatures are enumerated through the SignerInfos,
+		// so a tx with fewer SignerInfos than signers would leave the remaining signers unchecked
+		signerAddrs := sigTx.GetSigners()
+		if len(sigs) != len(signerAddrs) || len(pubKeys) != len(signerAddrs) {
+			return ctx, sdkerrors.ErrUnauthorized.Wrapf("invalid number of signer;  expected: %d, got %d", len(signerAddrs), len(sigs))
 		}
 		for i, sig := range sigs {
 			pubKey := pubKeys[i]
